@@ -336,3 +336,8 @@ CHECK_DEADLOCK FALSE
     from vt.checks import xcli
 
     xcli.cli_part(ctx)
+    # extraction as a function of the payload alone (ExtractHist.tla), and blocks in the first bytes of a stage's decoded view
+    from vt.checks import xextract
+
+    xextract.hist_part(ctx)
+    xextract.stage_head_part(ctx)
